@@ -15,8 +15,7 @@ from lib.engine import R, V, custom_part
 
 ID = 'C19'
 RULE = ('every Specs/**/*.json case not marked NotSupported/NotSupportedByDesign for Python, as parameterised by the repository\'s '
-        'own test runners (model, extractor, parser, merged-parser level, options from the file names); quick tier: number, '
-        'number-with-unit, sequence, choice runners completely + date-time model level; thorough: all runners; '
+        'own test runners (model, extractor, parser, merged-parser level, options from the file names); both tiers run all runners; '
         'non-trivial = executed case that expects at least one entity; distinct = pytest node id')
 ASSUMPTIONS = ['the repository\'s test runners (Python/tests) are the normative reading of "returns exactly the specified entities"',
                'pytest 9 / xdist as installed in /venv']
@@ -50,7 +49,9 @@ def _pytest(args, out_prefix, nproc=16):
 def run(ctx):
     out_prefix = os.path.join(env.VERIF, '.work', 'C19-out-%d' % os.getpid())
     os.makedirs(os.path.dirname(out_prefix), exist_ok=True)
-    p, recs = _pytest(QUICK if ctx.tier == 'quick' else FULL, out_prefix)
+    # both tiers run the whole corpus: a regression confined to one level (extractor / parser / merged parser) or to one options-specific
+    # spec file must not wait for the thorough tier
+    p, recs = _pytest(FULL, out_prefix)
     tail = '\n'.join(p.stdout.strip().splitlines()[-15:])
     if p.returncode not in (0, 1) or ' error' in tail.splitlines()[-1] or not recs:
         raise env.HarnessError('pytest run failed (rc=%s):\n%s' % (p.returncode, tail))
